@@ -1,6 +1,7 @@
 import GrinVerif.Lemmas.StoreProof
 import GrinVerif.Lemmas.StoreBlocks
 import GrinVerif.Model.StoreExt
+import GrinVerif.Lemmas.StoreImport
 /-! C08, stores that were not built leaf by leaf (state sync fills a backend through
 `push_pruned_subtree` / `push` / `remove_from_leaf_set`, `Model/StoreExt.lean`), the leaf-set
 views, and the non-prunable backend.
@@ -220,7 +221,72 @@ example : RefSt.Proto (importedRef { es := [[1], [2], [3], [4]], U := [3, 4] } [
   refine ⟨hb _ (by omega), ?_⟩
   simp
 
-/- **import_establishes_reference** (full statement, NOT proved – `_partial` below):
+/-! ### the import step against the reference (increment 2) -/
+
+/-- **`PruneList::append` of a new rightmost root.**  Every root of the list lies at or below the
+first position `mmr N` of the new root's subtree and the new root's sibling is not pruned: the
+bitmap grows by exactly that root (no roll-up, nothing cleaned up) and the invariant (hence both
+shift caches, `shift_spec` / `leaf_shift_spec`) holds again. -/
+theorem prune_list_append_rightmost (pl : PruneList) (h : pl.Inv) (N pos0 : Nat)
+    (hroots : ∀ x ∈ pl.bitmap, x ≤ mmr N) (hl : bintreeLeftmost pos0 = mmr N)
+    (hsib : pl.isPruned (family pos0).2 = false) :
+    (pl.append pos0).bitmap = pl.bitmap ++ [pos0 + 1] ∧ (pl.append pos0).Inv :=
+  PruneList.append_rightmost h hroots hl hsib
+
+/-- **The file layouts after that append**: the hash file has to hold the old layout followed by
+the root and every later position (the `2^(h+1) - 2` positions inside the subtree never get an
+entry); the data file layout is unchanged provided no position from the root on is a leaf (root of
+height `>= 1`). -/
+theorem import_layout_step (bm : Bitmap) (N pos0 M' : Nat) (hroots : ∀ x ∈ bm, x ≤ mmr N)
+    (hl : bintreeLeftmost pos0 = mmr N) (hlt : pos0 < M')
+    (hnl : ∀ q, pos0 ≤ q → q < M' → isLeaf q = false) :
+    layout (bm ++ [pos0 + 1]) M' = layout bm (mmr N) ++ List.range' pos0 (M' - pos0) ∧
+    dataLayout (bm ++ [pos0 + 1]) M' = dataLayout bm (mmr N) :=
+  ⟨layout_snoc hroots hl hlt, dataLayout_snoc hl hlt hnl⟩
+
+/-- **import_step_preserves_reference.**  One `push_pruned_subtree` step against the reference:
+`b` satisfies the in-unit reference invariant for `N` leaves (prune-list file brought up to date,
+`fixPF`), the new root's subtree starts at `mmr N`, its sibling is not pruned, the MMR with its
+leaves has size `mmr N' = pos0 + 1 + k` and no position from `pos0` on is a leaf.  If the backend
+`b2` after the step differs from `b` by `PruneList.append pos0` and by a hash buffer extended with
+the reference hashes of `pos0 … mmr N' − 1` (frame: `push_pruned_subtree_frame`), it satisfies the
+invariant for `N'` leaves with the same data file - so `sync` yields a `Synced` backend
+(`Live.sync`) and `history_from_synced_state` applies. -/
+theorem import_step_preserves_reference {H : Type} (hf : HashFn Bytes H) (f : Nat → Bytes)
+    (b b2 : Backend H) (N N' pos0 k : Nat) (df : AOF Bytes)
+    (h : Live b.fixPF N (refHash hf f) (refData f) df)
+    (hl : bintreeLeftmost pos0 = mmr N) (hsz : mmr N' = pos0 + 1 + k)
+    (hsib : b.pruneList.isPruned (family pos0).2 = false)
+    (hnl : ∀ q, pos0 ≤ q → q < mmr N' → isLeaf q = false)
+    (hbd : mmr N' + 64 < 2 ^ 64)
+    (hdf : b2.dataFile = b.dataFile) (hls : b2.leafSet = b.leafSet)
+    (hpl : b2.pruneList = b.pruneList.append pos0)
+    (hdisk : b2.hashFile.disk = b.hashFile.disk) (hbsp : b2.hashFile.bsp = b.hashFile.bsp)
+    (hbak : b2.hashFile.bak = b.hashFile.bak)
+    (hbuf : b2.hashFile.buffer = b.hashFile.buffer ++ (List.range' pos0 (k + 1)).map (refHash hf f)) :
+    Live b2.fixPF N' (refHash hf f) (refData f) df ∧
+    ∃ df', Synced b2.fixPF.sync N' (refHash hf f) (refData f) df' :=
+  have hl' := Live.import_step h hl hsz hsib hnl hbd hdf hls hpl hdisk hbsp hbak hbuf
+  ⟨hl', ⟨_, hl'.sync⟩⟩
+
+/-- the geometric hypotheses are satisfiable: the pair of leaves 0, 1 as the first pruned subtree
+(root position 2 of height 1, `N = 0`, `N' = 2`, no merged parent: `k = 0`) -/
+example : bintreeLeftmost 2 = mmr 0 ∧ mmr 2 = 2 + 1 + 0 ∧ (∀ q, 2 ≤ q → q < mmr 2 → isLeaf q = false) ∧
+    (({} : PruneList).isPruned (family 2).2 = false) := by
+  have h2 : height 2 = 1 := by
+    have := pmh_coord 1 1 (by simp [trailingOnes])
+    have h1 : mmr 1 = 1 := by simp [mmr, popcount]
+    rw [h1] at this
+    simp [height, this]
+  have m2 : mmr 2 = 3 := by simp [mmr, popcount]
+  have m0 : mmr 0 = 0 := by simp [mmr, popcount]
+  refine ⟨by simp [bintreeLeftmost, h2, m0], by omega, ?_, by simp [PruneList.isPruned, PruneList.isPrunedRoot, Bm.contains, Bm.select, Bm.rank]⟩
+  intro q a b
+  have : q = 2 := by omega
+  subst this
+  simp [isLeaf, h2]
+
+/- **import_establishes_reference** (full statement, NOT proved as a whole – `_partial` below):
    for every leaf history `es`, every set `R` of subtree roots of height ≥ 1 no two of which are
    siblings or nested, and every spent set `S ⊇ leaves below R`: feeding an empty backend, in
    position order, `push_pruned_subtree (refHash r) r` for `r ∈ R`, `push e` for every other leaf and
@@ -228,19 +294,27 @@ example : RefSt.Proto (importedRef { es := [[1], [2], [3], [4]], U := [3, 4] } [
    `Synced b es.length (refHash hf (leafFn es)) (refData (leafFn es)) df`, leaf set = the unspent
    leaves and prune list pruning exactly the leaves below `R` – i.e. the hypotheses of
    `history_from_synced_state`.
-   Missing: the step lemma `Live.pushPrunedSubtree` (the analogue of `Live.push` in
-   Lemmas/StoreOps.lean): that `PruneList.append` of a root right of all existing roots whose
-   sibling is not pruned extends `layout` by exactly the root and the merged parents and leaves
-   `dataLayout` unchanged (needs height ≥ 1: for a leaf-height root the data file would need an
-   entry that is never appended – run `store imported`, malformed stream, exercises that case on
-   the model only), and that the loop's `get_hash(sibling)` reads the reference hashes.
-   What is proved instead: the frame (`push_pruned_subtree_frame`: only the hash buffer and the
-   in-memory prune list change, by one hash + parents and `PruneList.append pos0`), the leaf-set
-   step (`remove_from_leaf_set_live`), and that the RESULT, once it satisfies the reference
-   invariant, is preserved by every later history (`history_from_synced_state`).  The import
-   step itself is tied to the code and to the reference by differential execution only
-   (run `store imported`: 0 deviations from the unpruned reference over every import shape of
-   2..13 leaves and random ones up to 70 leaves). -/
+   PROVED since increment 2: the step lemma for `PruneList.append` of a new rightmost root against
+   the file layout (`prune_list_append_rightmost`, `import_layout_step`) and the preservation of
+   the reference invariant by one import step GIVEN what the step appended to the hash buffer
+   (`import_step_preserves_reference`); with `Live.push` (leaf steps), `remove_from_leaf_set_live`
+   and `Live.sync` these are all the per-step lemmas of the induction.
+   EXACTLY WHAT IS LEFT, both about `core/src/core/pmmr/pmmr.rs` arithmetic rather than the store:
+   (L1) the loop of `push_pruned_subtree` (`PM.pushPrunedLoop`): for a root at coordinates
+        `(n, h)` (`pos0 = mmr n + h`, `h ≤ trailingOnes n`) the `while (peak_map & peak) != 0` loop
+        runs `trailingOnes n` times, merges in exactly the first `trailingOnes n − h` of them (the
+        later ones see a left child and `continue`), each merge reads the left sibling through
+        `get_hash` (a non-leaf: `get_from_file`, equal to the reference by `Live.read_hash` because
+        it is not compacted: `left_sibling_ok`), so the buffer grows by the reference hashes of
+        `pos0 + 1 … pos0 + (trailingOnes n − h)`, the flag is `true` and
+        `round_up_to_leaf_pos` of the last position is `mmr (n + 1)`;
+   (L2) the geometry of an aligned subtree in coordinates: `bintreeLeftmost (mmr n + h) =
+        mmr (n + 1 − 2^h)`, `mmr (n + 1) = mmr n + trailingOnes n + 1`, `height (mmr n + j) = j`
+        for `j ≤ trailingOnes n` (so no leaf from the root on) – all instances of `coord` lemmas of
+        Lemmas/PmmrCoord.lean, not yet instantiated.
+   The import step as a whole stays tied to the code and to the never-pruned reference by
+   differential execution (run `store imported`: 0 deviations over every import shape of 2..13
+   leaves and random ones up to 70 leaves). -/
 theorem import_establishes_reference_partial {H : Type} (hf : HashFn Bytes H) (p : PM H) (hash : H)
     (pos0 : Nat) :
     let p' := (PM.pushPrunedSubtree hf p hash pos0).1
